@@ -1,6 +1,7 @@
 """C16 — individual-parameter containers convert losslessly."""
 from __future__ import annotations
 
+import copy
 import json
 import os
 import shutil
@@ -641,9 +642,27 @@ def run_container_case(run: Run, ops, intents, shapes, meta, tmpdir, rng):
                         run.fail("json-sorted-keys:table-differs", "after save(json, sort_keys=True) / load, to_dataframe() differs", inp)
             except Exception as ex:  # noqa
                 run.fail(f"json-sorted-keys:raises:{type(ex).__name__}", f"save(json, sort_keys=True) / load / convert raised {type(ex).__name__}: {ex}", inp)
+    # a container read back from a file is a container like any other: adding an identifier it already holds must be refused
+    def dup_after(label, obj):
+        if obj is None or not nonempty or not getattr(obj, "_indices", None):
+            return
+        i0 = obj._indices[0]
+        try:
+            obj.add_individual_parameters(i0, copy.deepcopy(obj._individual_parameters[i0]))
+        except LeaspyIndividualParamsInputError:
+            run.count("duplicate_after_load", f"{label}: refused")
+            return
+        except Exception as ex:  # noqa
+            run.fail(f"add:duplicate-after-{label}:raises:{type(ex).__name__}", f"adding an identifier already present after {label} raises "
+                     f"{type(ex).__name__}: {ex}", inp)
+            return
+        run.fail(f"add:duplicate-accepted-after-{label}", f"after {label}, adding an identifier the container already holds is accepted "
+                 f"(indices now {list(obj._indices)[:6]})", inp, expected="LeaspyIndividualParamsInputError", observed="accepted")
+    dup_after("json-load", jb)
     # csv
     pc = os.path.join(tmpdir, "c.csv")
     c_l, cb, e1 = res_lit(lambda: via(pc), container_lit)
+    dup_after("csv-load", cb if not isinstance(cb, Exception) else None)
     if not nonempty and isinstance(e1, LeaspyIndividualParamsInputError):
         pass        # documented: save refuses the empty container
     else:
